@@ -243,7 +243,7 @@ theorem union_row_complete {p fs types offs cur} {i : Nat} {pc : B → R B} {ufs
       let (c, types', offs', cur') ← serializeVariant fs types offs cur i
       let c' ← pc c
       pure (.union p (fs.set i c') types' offs' cur') : R B) = .ok b' ∧
-        min (curRoom cur) (roomL fs) ≤ room b' + (cost + 1) := by
+        min (curRoom cur) (roomL fs) ≤ room b' + max cost 1 := by
   have hw := hg.wf
   simp only [WFB] at hw
   have hsafe := hg.safe
